@@ -213,3 +213,42 @@ def run_engine(ck, tier, seed, pids, with_passloop=False):
     if h.summary:
         ck.traces += h.summary["extra"]["segments"]
         ck.extra.setdefault("impl", {})["corpus_all_dirs"] = dict(h.summary["extra"], passes_counted=h.summary.get("passes_counted"), worst_iter_permille_of_bound=h.summary.get("worst_iter_permille_of_bound"))
+
+
+def controller_trace(ck, tier, seed, tmp, exe, as_violation):
+    """code -> spec: the cursor / high-water / loop-counter bookkeeping at the end of every iteration of the real rule
+    loop (hook events 3, 4) on corpus and random strings, validated against Control of PassLoop.tla."""
+    q = tier == "quick"
+    js = corpus.jobs(maxlines=25 if q else 400, with_fonttests=True) + corpus.random_jobs(n=40 if q else 800, seed=seed, dirs=[0, 1])
+    jf = os.path.join(tmp, "ctl_jobs.ndjson")
+    open(jf, "w").write("\n".join(json.dumps(j) for j in js) + "\n")
+    tr = os.path.join(tmp, "ctl.ndjson")
+    h = vlib.run_harness(exe, ["shape", jf, "ctl", tr, 120000 if q else 2000000], timeout=6000)
+    if h.fault or not h.summary:
+        vlib.absorb(ck, h)
+        return
+    n = sum(1 for _ in open(tr))
+    rv = vlib.tlc("PassLoopTrace.tla", "PassLoopTrace.cfg", workers=1, env={"TRACE": tr}, timeout=6000, coverage=False, heap="24g")
+    if rv.violation:
+        lines = open(tr).read().splitlines()
+        ev = lines[min(max(rv.states - 1, 0), len(lines) - 1)]
+        if as_violation:
+            ck.violation("the rule loop's cursor bookkeeping differs from the specified control step: " + ev,
+                         {"why": "trace rejected by PassLoopTrace", "event": json.loads(ev)})
+        else:
+            ck.extra.setdefault("impl", {})["rule_loop_control_model_drift"] = ev
+        return
+    ck.add_tlc("PassLoopTrace(%d recorded loop iterations)" % n, rv)
+    ck.extra.setdefault("impl", {})["rule_loop_control_steps_validated"] = n
+    if n:
+        # binding: a step whose loop counter is not re-armed must be rejected
+        lines = open(tr).read().splitlines()
+        cand = [i for i, l in enumerate(lines) if '"s":0' not in l and '"lc2":%s' % json.loads(l)["ml"] in l and json.loads(l)["lc"] != json.loads(l)["ml"]][:50]
+        if cand:
+            o = json.loads(lines[cand[0]])
+            o["lc2"] = o["lc"]
+            bad = os.path.join(tmp, "ctl_corrupt.ndjson")
+            open(bad, "w").write(json.dumps(o) + "\n")
+            rb = vlib.tlc("PassLoopTrace.tla", "PassLoopTrace.cfg", workers=1, env={"TRACE": bad}, timeout=600, coverage=False)
+            if not rb.violation:
+                raise vlib.Broken("binding lost: a control step with a stale loop counter was accepted")
